@@ -380,3 +380,38 @@ Theorem C04_symlink_adds_only_the_link : forall root t q tg t',
   tree_get t q = None /\ forall p, tree_get t' p = if path_eqb q p then Some (Link tg) else tree_get t p.
 Proof. exact symlink_exact. Qed.
 Print Assumptions C04_symlink_adds_only_the_link.
+
+From GI Require Lib.GoSem Lib.GoSemState TsBatch.SrcLib TsBatch.Names Gen.TsBatchSrc TsBatch.SrcFacts.
+
+(* ---- the source itself: the statements of RunT that name a script (from filepath.Base(file) to
+   names[name] = true), translated on every run by harness/go2coq (Gen/TsBatchSrc.v), are the
+   model TsBatch/Names.v (TsBatch/SrcFacts.v).  [l] is the map names (newest binding first),
+   [Names.cand prefix i] the i-th candidate: prefix, prefix#1, prefix#2, ... *)
+
+(* With fuel for (bindings of the map) + 2 tests the translated segment never panics and never
+   runs out of fuel: it records and returns the first candidate that is not in the map. *)
+Theorem C04_source_name_is_first_free_candidate : forall fuel l file, length l + 2 <= fuel ->
+  exists i, i <= length l + 1 /\
+    TsBatchSrc.src_RunT_name fuel (Some l) file =
+      GoSem.Ok (GoSem.Normal (Some ((Names.cand (Names.script_prefix file) i, true) :: l),
+                              Names.cand (Names.script_prefix file) i)) /\
+    Names.taken l (Names.cand (Names.script_prefix file) i) = false /\
+    forall i', i' < i -> Names.taken l (Names.cand (Names.script_prefix file) i') = true.
+Proof. exact TsBatch.SrcFacts.src_name_total. Qed.
+Print Assumptions C04_source_name_is_first_free_candidate.
+
+(* The names of a batch (the translated segment for each file in turn, the map handed on) are
+   the model's. *)
+Theorem C04_source_batch_names : forall fuel files l, length l + length files + 1 <= fuel ->
+  TsBatch.SrcFacts.src_batch_names fuel (Some l) files = GoSem.Ok (Names.assign l files).
+Proof. exact TsBatch.SrcFacts.src_batch_names_eq. Qed.
+Print Assumptions C04_source_batch_names.
+
+(* "Distinct scripts get distinct work directories" starts here: whatever the files are called
+   (a/foo.txt, b/foo.txtar, c/foo#1.txt ...), the names one RunT call gives its scripts -- the
+   subtest names and the script-<name> directories -- are pairwise distinct. *)
+Theorem C04_source_names_distinct : forall fuel files, length files + 1 <= fuel ->
+  exists names, TsBatch.SrcFacts.src_batch_names fuel (Some []) files = GoSem.Ok names /\
+                length names = length files /\ NoDup names.
+Proof. exact TsBatch.SrcFacts.src_batch_names_distinct. Qed.
+Print Assumptions C04_source_names_distinct.
